@@ -17,6 +17,10 @@ import faulthandler
 faulthandler.enable()
 from rv import bridge  # noqa
 
+if os.environ.get("RV_LOGGING") == "DEBUG":
+    import logging
+    logging.getLogger().setLevel(logging.DEBUG)
+    logging.getLogger().addHandler(logging.NullHandler())
 bridge.import_tucan(os.environ.get("TUCAN_VERIF_REPO", "/repo"))
 import tucan.canonicalization as C  # noqa
 import tucan.serialization as S  # noqa
